@@ -52,7 +52,12 @@ func loadPool() {
 				goodPool = append(goodPool, string(b))
 			}
 		}
-		goodPool = append(goodPool, "package x\n\ntempl a() {\n\t<div>a</div>\n}\n", "package x\n")
+		goodPool = append(goodPool, "package x\n\ntempl a() {\n\t<div>a</div>\n}\n", "package x\n",
+			// Go code that gofmt would change: import blocks out of order, old-style number
+			// literals, odd spacing and alignment - the output has to be the gofmt-formatted text
+			"package x\n\nimport (\n\t\"strings\"\n\t\"fmt\"\n\t\"context\"\n)\n\nvar _ = context.Background\n\nfunc label(n int) string {\n\treturn strings.ToUpper(fmt.Sprint(n))\n}\n\ntempl a(n int) {\n\t<b>{ label(n) }</b>\n}\n",
+			"package x\n\nconst mask = 0XFF\nconst big = 0B1011 + 0O17 + 1E3\n\nvar   table = map[string]int{\n\"a\":1,\n\"bbbbbb\":   2,\n}\n\ntempl a() {\n\t<i data-n={ fmt.Sprint(mask + table[\"a\"]) }>x</i>\n}\n",
+			"package x\n\nimport \"os\"\nimport \"fmt\"\n\ntype  T struct{\n\tA int\n\tLonger string\n}\n\nfunc (t T) S() string { return fmt.Sprint(t.A, os.PathSeparator) }\n\ntempl a(t T) {\n\t<p>{ t.S() }</p>\n}\n")
 	})
 }
 
